@@ -18,6 +18,7 @@ func verifRange(name string, lo, hi int) int
 func verifBytes(name string, n int) []byte
 func verifBytesIn(name string, n int, set string) []byte
 func verifParam(name string) int
+func verifParamOr(name string, def int) int
 func verifAssume(c bool)
 func verifAssert(c bool, msg string)
 func verifViolation(class string, msg string)
@@ -104,6 +105,12 @@ var intrinsics = map[string]extFn{
 			panic("verifParam: job has no parameter " + a[0].(string))
 		}
 		return uint64(v)
+	},
+	"verifParamOr": func(e *Engine, _ *frame, _ *ssa.Function, a []value) value {
+		if v, ok := e.sh.params[a[0].(string)]; ok {
+			return uint64(v)
+		}
+		return a[1]
 	},
 	"verifAssume": func(e *Engine, _ *frame, _ *ssa.Function, a []value) value {
 		switch c := a[0].(type) {
